@@ -18,8 +18,8 @@ def gen_case(rng, max_gates=30, xor_rich=None, caps=None, feats=None, sims=None,
         'net': net, 'feats': feats,
         'cls': rng.choice(['cpu', 'cpu', 'cuda']),
         'c_reuse': rng.random() < 0.4, 'strip_forks': rng.random() < 0.4,
-        'sims': sims or rng.choice([1, 2, 3, 5, 8, 9, 12]),
-        'caps': caps if caps is not None else rng.choice([4, 4, 8, 16, 32, 'perline']),
+        'sims': sims or rng.choice([1, 2, 3, 5, 8, 9, 12] * 4 + [31, 32, 33, 40, 65]),      # > 32 lanes: more than one mock-GPU block in x
+        'caps': caps if caps is not None else rng.choice([4, 4, 8, 16, 32, 'perline', 'perline', 64]),
         'caps_seed': rng.randrange(1 << 30),
         'delay_seed': rng.randrange(1 << 30), 'kmax': rng.choice([4, 16, 64]), 'polind': rng.random() < 0.3,
         'dtype': rng.choice(['f4', 'f4', 'f8']), 'ndata': 1,
